@@ -53,6 +53,7 @@ pub enum ImmSpec {
 }
 
 #[derive(Clone, Debug)]
+#[allow(dead_code)]
 pub enum Kind {
     Reg { name: &'static str, at31: At31 },
     FReg { name: &'static str },
@@ -63,6 +64,7 @@ pub enum Kind {
 }
 
 impl Kind {
+    #[allow(dead_code)]
     pub fn name(&self) -> &'static str {
         match self {
             Kind::Reg { name, .. } | Kind::FReg { name } | Kind::Imm { name, .. } => name,
